@@ -522,7 +522,7 @@ def trexp2(S, theta=None, check=True):
 
 def adjoint2(T):
     # http://ethaneade.com/lie.pdf
-    if T.shape == (3,3):
+    if T.shape == (2,2):
         # SO(2) adjoint
         return np.identity(2)
     elif T.shape == (3,3):
